@@ -304,6 +304,8 @@ def _reload(ck, fx, cg):
     # the loader is fed the bytes of the file: the CLI's input reader is byte-transparent
     from . import shared
     sites = shared.reader_transparency(fx)
+    for fn_, where_, ok_, why_ in shared.partial_source_readers(fx):
+        ck.ob("R3.source", "%s|reads the input" % fn_, ok_, where_, why_)
     for fn, where, ok, why in sites:
         ck.ob("R3.source", "%s|input reader" % fn, ok, where,
               "the input reader is %s" % why if ok else "the bytes of a bytecode file can be altered before Program::from_bytes sees them: the input reader is %s" % why)
@@ -340,6 +342,15 @@ def _reload(ck, fx, cg):
             # failure wherever the accessor is called from (a closure of a collect or the body of a loop)
             made = [e for e in made if ((_sh.fn_at(fx, e["at"]) or {}).get("impl_self") or "") not in (L.PO, "bytecode::program::ConstantPool")]
             raised = o[0] == "panic" and isinstance(o[1], str) and ("panic_fmt" in o[1] or "begin_panic" in o[1] or "panic_display" in o[1] or "assert_failed" in o[1])
+            if raised and not made:
+                # a panic raised in the failure handler of a std operation (`read_exact(..).unwrap_or_else(|e| panic!(..))`,
+                # `from_utf8(..)` likewise) is that operation's failure with a hand-written message — decoding, not validation:
+                # the last thing the path decided before panicking is that the operation failed
+                decided = [e for e in p["eff"] if e["k"] in ("assume", "assume_fail", "assume_ok")]
+                if decided and decided[-1]["k"] == "assume_fail" and isinstance(decided[-1]["args"][0], tuple) and decided[-1]["args"][0][:1] == ("fall",):
+                    origin = [e for e in p["eff"] if e.get("res") == decided[-1]["args"][0] and e["k"] in ("call", "read")]
+                    if origin and (origin[-1]["k"] == "read" or origin[-1]["args"][0][1].startswith(("std::", "core::", "alloc::"))):
+                        raised = False
             if made or raised:
                 explicit.append((made[-1]["at"] if made else ([e for e in p["eff"] if e.get("at")] or [{"at": ""}])[-1]["at"]))
         ck.ob("R3.reload", "the loader refuses a file only where decoding fails", not explicit, explicit[0] if explicit else "",
@@ -348,7 +359,7 @@ def _reload(ck, fx, cg):
                   len(explicit), n_fail, explicit[0]))
     # loader: Method arm appends the opcodes read, in order, and records (old length, count)
     rv, err = L.reader_variants(fx, "constant.from_bytes", L.PO)
-    ok = False
+    verdicts = []
     why = "no Method reader path"
     for tag, ls in (rv or {}).items():
         for x in ls:
@@ -357,9 +368,14 @@ def _reload(ck, fx, cg):
             code = dict(x["term"][3]).get("code")
             ext = [i for i in x["items"] if i[0] == "extend"]
             s = fmt_term(code)
-            ok = len(ext) == 1 and "len(field(code, '0'))" in s and "start" in s
-            why = "method code is appended to the program's code (one extend): %s; its range starts at the previous length: %s" % (len(ext) == 1, "len(field(code, '0'))" in s)
-    ck.ob("R3.reload", "loader appends method code in pool order", ok, "", why)
+            okp = len(ext) == 1 and "len(field(code, '0'))" in s and "start" in s
+            verdicts.append(okp)
+            if not okp or why == "no Method reader path":
+                why = "method code is appended to the program's code (one extend): %s; its range starts at the previous length: %s" % (len(ext) == 1, "len(field(code, '0'))" in s)
+    # on EVERY path that builds a Method (a path that reuses code already loaded, skips or rewrites instructions gives
+    # the method a range that is not the instructions read for it)
+    ok = bool(verdicts) and all(verdicts)
+    ck.ob("R3.reload", "loader appends method code in pool order", ok, "", why + ("" if ok or not verdicts else " — on %d of %d path(s) that build a Method" % (verdicts.count(False), len(verdicts))))
     # writer: the method's own range, forwards
     layouts, err = L.writer_variant(fx, "constant.serialize", L.PO, "Method")
     ok = False
